@@ -254,6 +254,16 @@ func (c01) Generate(r *sim.Rand, tier string) *sim.Scenario {
 		g.o.MaxElems, g.o.MaxDim = 144, 6
 		maxOps, maxDepth = 50, 60
 	}
+	if r.Bool(0.003) {
+		// a deep graph: hundreds of levels of a linear diamond chain / ladder on
+		// small tensors (bookkeeping that degrades with depth; 2^depth paths)
+		mode = []int{6, 7}[r.Intn(2)]
+		linear = true
+		nclients = 1
+		maxDepth = r.Range(150, 450)
+		maxOps = 12
+		g.o = genOpts{MaxElems: 6, MaxRank: 2, MaxDim: 3, Linear: true, PSynth: 0.1, PTracked: 1}
+	}
 	// size swarm: now and then long dimensions / many concat operands / rank 5
 	switch r.Intn(8) {
 	case 0:
